@@ -295,9 +295,28 @@ structure S where
   m : Ring.St := {}
   c : Cycles.C := {}
 
+/-- `At`/`Peek` with an offset beyond the number of cells, from a cell whose walk (in the direction of the offset)
+does NOT come back to it within `size + 1` steps: the heap is not a union of cycles any more (only a corrupted `Join`,
+`Pop` or `New` can do that) and the walk of the code — and of `Model.Ring.at_`, which follows it step by step — never
+wraps: for the far offsets the generator uses (up to 2^63) that is a hang, which is what the harness's watchdog
+reports.  On a well-formed heap the walk returns within `Len ≤ size` steps and this guard is never taken. -/
+def farWalkOpen (m : Ring.St) (r : Nat) (n : Int) : Bool :=
+  match m.reg r with
+  | none => false
+  | some c =>
+    n.natAbs > m.h.size + 1 &&
+      (match atLoop (m.h.get (if Gen.Ring.atNeg n then Gen.Ring.atBack else Gen.Ring.atFwd)) c (m.h.size + 1) c with
+       | some _ => true
+       | none => false)
+
 def step (s : S) (toks : List String) (impl : String) : S × String × String :=
   let go (s : S) (op : Option Op) : S × String × String :=
     let (m', mr) := match op with
+      | some (.at_ _ r n) | some (.peek r n) =>
+        if farWalkOpen s.m r n then (s.m, "hang")
+        else (match op with
+          | some op => let (m', o) := Ring.step s.m op; (m', fmtOut o)
+          | none => (s.m, "-"))
       | some op => let (m', o) := Ring.step s.m op; (m', fmtOut o)
       | none => (s.m, "-")
     let (c', cr) := match op with
